@@ -6,7 +6,76 @@ from ..refmodel import tables as T
 from ..refmodel.composition import ref_vector, api_vector
 
 PROP = "C04"
-NCALLS = 18
+NCALLS = 26
+PPII_SPELLINGS = (("hilser", "Hilser"), ("hilser", "HILSER"), ("creamer", "Creamer"), ("creamer", "CREAMER"),
+                  ("kallenbach", "Kallenbach"), ("kallenbach", "kAlLeNbAcH"))
+
+
+def light(o):
+    return {"countPos": o.get_countPos(), "countNeg": o.get_countNeg(), "countNeut": o.get_countNeut(),
+            "fraction_positive": o.get_fraction_positive(), "fraction_negative": o.get_fraction_negative(),
+            "FCR": o.get_FCR(), "NCPR": o.get_NCPR(), "mean_net_charge": o.get_mean_net_charge(),
+            "fraction_expanding": o.get_fraction_expanding(), "fraction_disorder_promoting": o.get_fraction_disorder_promoting(),
+            "mean_hydropathy": o.get_mean_hydropathy(), "WW_hydropathy": o.get_WW_hydropathy(),
+            "PPII_creamer": o.get_PPII_propensity("creamer"), "molecular_weight": o.get_molecular_weight()}
+
+
+def contexts(seq):
+    """Other API calls made on the same object before the composition getters are asked again (accepted calls incl. degenerate ones)."""
+    n = len(seq)
+    x, y = seq[0], seq[-1]
+    sty = [i + 1 for i, a in enumerate(seq) if a in "STY"][:3]
+    absent = [a for a in "WCMFH" if a not in seq][:2] or ["W", "C"]
+    return [
+        ("get_kappa", lambda o: o.get_kappa()), ("get_Omega", lambda o: o.get_Omega()),
+        ("get_deltaMax(True)", lambda o: o.get_deltaMax(True)), ("get_SCD", lambda o: o.get_SCD()),
+        ("get_kappa_X(absent,absent)", lambda o: o.get_kappa_X(absent[:1], absent[1:] or ["C"])),
+        ("get_kappa_X(absent)", lambda o: o.get_kappa_X(absent[:1])),
+        ("get_kappa_X(first,last)", lambda o: o.get_kappa_X([x], [y])),
+        ("get_kappa_X(first)", lambda o: o.get_kappa_X([x])),
+        ("get_kappa_X(ED,KR)", lambda o: o.get_kappa_X(["E", "D"], ["K", "R"])),
+        ("get_isoelectric_point", lambda o: o.get_isoelectric_point()),
+        ("get_NCPR(pH=2)/get_FCR(pH=12)", lambda o: (o.get_NCPR(2.0), o.get_FCR(pH=12), o.get_fraction_expanding(7.0))),
+        ("phosphosites+kappa-after+distribution", lambda o: (o.set_phosphosites(sty), o.get_kappa_after_phosphorylation(),
+                                                             o.get_full_phosphostatus_kappa_distribution(), o.get_phosphosequence())),
+        ("linear profiles", lambda o: (o.get_linear_NCPR(min(n, 5)), o.get_linear_FCR(n), o.get_linear_sigma(min(n, 5)),
+                                       o.get_linear_hydropathy(min(n, 5)), o.get_linear_sequence_composition(min(n, 5)))),
+        ("complexity", lambda o: (o.get_reduced_alphabet_sequence(4), o.get_linear_complexity(blobLen=min(n, 4)),
+                                  o.get_linear_complexity("LC", 2, blobLen=min(n, 4), wordSize=min(n, 2)))),
+        ("palette+html", lambda o: (o.set_HTMLColorResiduePalette({a: "red" for a in T.AA}), o.get_HTMLColorString())),
+        ("region+fractions", lambda o: (o.get_phasePlotRegion(), o.get_amino_acid_fractions(), o.get_sequence(), str(o), len(o))),
+    ]
+
+
+def check_after_context(case):
+    """Composition of a live object is a function of its sequence: unchanged by whatever else was asked of the object before."""
+    from localcider.sequenceParameters import SequenceParameters as SP
+    from ..engines.history import scramble
+    seq = case["multiset"]
+    out = []
+    r = ref_vector(seq)
+    o = SP(seq)
+    n = 0
+    for name, f in contexts(seq):
+        try:
+            with core.quiet():
+                scramble(f(o))
+        except Exception:  # noqa  (a context call may be rejected; what matters is the object afterwards)
+            pass
+        try:
+            a = light(o)
+        except Exception as e:  # noqa
+            out.append({"key": "after-context:exception", "what": "%s: composition getter raised %r after %s" % (seq, e, name),
+                        "case": dict(case, seq=seq, context=name)})
+            break
+        n += 1
+        bad = [k for k in a if not (a[k] == r[k] if k.startswith("count") else core.close(a[k], float(r[k]), 1e-9, 1e-12))]
+        if bad:
+            out.append({"key": "after-context:" + bad[0],
+                        "what": "%s: after %s on the same object, %s = %r but the per-residue definition gives %r"
+                                % (seq, name, bad[0], a[bad[0]], float(r[bad[0]])), "case": dict(case, seq=seq, context=name)})
+            break
+    return out, n
 
 
 def check_seq(seq, case):
@@ -33,6 +102,17 @@ def check_seq(seq, case):
             v("param:" + (k if not k.startswith("frac_") else "aa_fraction"),
               "%s: %s = %r but per-residue definition gives %s (=%r)" % (seq, k, got, ref, float(ref)),
               param=k, observed=got, expected=float(ref))
+    try:
+        o2 = SP(seq)
+        for canon, sp in PPII_SPELLINGS:
+            for got in (o2.get_PPII_propensity(sp), o2.get_PPII_propensity(mode=sp)):
+                if not core.close(got, float(r["PPII_" + canon]), 1e-9, 1e-12):
+                    v("param:PPII-mode-spelling", "%s: get_PPII_propensity(%r) = %r but the %s scale (documented as case-insensitive) "
+                      "gives %r" % (seq, sp, got, canon, float(r["PPII_" + canon])), param="PPII_" + sp)
+        if not core.close(o2.get_PPII_propensity(), float(r["PPII_hilser"]), 1e-9, 1e-12):
+            v("param:PPII-default-mode", "%s: get_PPII_propensity() is not the Hilser value" % seq)
+    except Exception as e:  # noqa
+        v("param:PPII-mode-spelling", "%s: get_PPII_propensity with a documented spelling raised %r" % (seq, e))
     N = len(seq)
     try:
         ident = [
@@ -77,6 +157,17 @@ def check_case(case):
 def shard(cases):
     acc = core.Acc()
     for case in cases:
+        if case["kind"] == "context":
+            v, n = check_after_context(case)
+            acc.states += n
+            acc.transitions += n * 15
+            acc.traces += 1
+            acc.evaluations += n
+            acc.nontrivial += 1
+            acc.bump("context_checks", n)
+            for x in v:
+                acc.viol(x["key"], x["what"], x["case"])
+            continue
         v, nperm, a = check_case(case)
         acc.states += nperm
         acc.traces += nperm
@@ -120,6 +211,14 @@ def run(tier, seed, t0):
             cases.append({"kind": "block", "multiset": x * n, "perms": False})
             y = T.AA[(T.AA.index(x) + 7) % 20]
             cases.append({"kind": "block", "multiset": x * (n - 3) + y * 3, "perms": False})
+    # after-context: homopolymers X^6, all ordered pairs as X^3 Y^4, STY-rich and long ones; 16 contexts each
+    for x in T.AA:
+        cases.append({"kind": "context", "multiset": x * 6})
+        for y in T.AA:
+            if x != y:
+                cases.append({"kind": "context", "multiset": x * 3 + y * 4})
+    for ms in ("SKEKTGKEYEKE", "GSGSTGNQAGYG", "EDSKRKRKYE", "KRDESTYPGAVLIMFWCHNQ", "K" * 40 + "GSTY" * 10 + "E" * 40):
+        cases.append({"kind": "context", "multiset": ms})
     nsh = 16 * 8
     acc = core.pmap(shard, [cases[i::nsh] for i in range(nsh)])
     res = acc.extra.pop("residues", set())
@@ -129,13 +228,15 @@ def run(tier, seed, t0):
         PROP, tier, seed, acc, t0,
         rule="every multiset of 1..%d residues over the 20 amino acids with ALL its distinct permutations (= every word of "
              "that length), plus all homopolymers X^a (a<=12) and two-residue blocks X^a Y^b (4<=a+b<=12) and long ones (130..1000 residues); per sequence 18 real "
-             "getter calls (counts, fractions, FCR, NCPR, mean net charge, expanding, disorder-promoting, 20 aa fractions, "
+             "getter calls (+ 13 calls with other spellings of the PPII scale name: capitalised, upper and mixed case, positional and keyword, default) (counts, fractions, FCR, NCPR, mean net charge, expanding, disorder-promoting, 20 aa fractions, "
              "KD 0-9 / Uversky / Wimley-White hydropathy, 3 PPII scales, molecular weight) compared with exact sums over pinned "
-             "published tables, 5 identities, and equality across permutations; non-trivial = multisets with >=2 distinct "
+             "published tables, 5 identities, and equality across permutations; after-context pass: on one live object per X^6, X^3Y^4 (all 380 ordered pairs) and 5 longer words, 16 other API calls (kappa, Omega, kappa_X incl. groups absent from the sequence, pI, pH getters, phosphosites, linear profiles, complexity, palette) each followed by 14 composition getters that must still equal the per-residue sums; non-trivial = multisets with >=2 distinct "
              "residues" % Lw,
         bounds={"multiset_size": Lw, "block_total": 12, "tolerance_rel": 1e-9},
         assumptions=["published per-residue values pinned in vmc/refmodel/tables.py"])
 
 
 def replay(case):
+    if case.get("kind") == "context":
+        return check_after_context(case)[0]
     return check_case(case)[0]
